@@ -216,7 +216,15 @@ class SimFS(object):
         for q in list(self.files) + list(self.dirs):
             if q.startswith(pre):
                 names.add(q[len(pre) :].split("/", 1)[0])
-        return sorted(names)
+        names = sorted(names)
+        seed = getattr(self, "listdir_seed", None)
+        if seed is not None:
+            # a real file system returns entries in no particular order
+            import hashlib
+            import random
+
+            random.Random(int.from_bytes(hashlib.sha256(("%d/%s" % (seed, p)).encode()).digest()[:8], "big")).shuffle(names)
+        return names
 
     def exists(self, path):
         if not self.inside(path):
